@@ -232,6 +232,48 @@ fn ensure_small_data(paths: &Paths) -> Result<Vec<String>, String> {
         let b = fs::read(&p).map_err(|e| format!("{}: {}", p, e))?;
         put(name, &b)?;
     }
+    // The BIG profile: SMALL plus generated spellings that the Avro pattern of a two-letter
+    // word accepts (optional folas and signs around the vowel), a few hundred per word.
+    let mut big = small.clone();
+    for (table, first) in [("k", '\u{0995}'), ("m", '\u{09AE}'), ("b", '\u{09AC}'), ("t", '\u{09A4}')] {
+        let fola = ["", "\u{09CD}\u{09AF}", "\u{09CD}\u{09AC}", "\u{09CD}\u{09AE}"];
+        let sign = ["", "\u{0983}", "\u{0981}"];
+        let vowel = ["\u{09CB}", "\u{0993}", "\u{0985}", "\u{09DF}", "\u{09DF}\u{09CB}"];
+        let mut words: Vec<String> = Vec::new();
+        for f1 in fola {
+            for s1 in sign {
+                for v in vowel {
+                    for f2 in fola {
+                        for s2 in sign {
+                            words.push(format!("{}{}{}{}{}{}", first, f1, s1, v, f2, s2));
+                        }
+                    }
+                }
+            }
+        }
+        words.sort();
+        words.dedup();
+        words.truncate(330);
+        big.entry(table.to_string()).or_default().extend(words);
+    }
+    fs::create_dir_all(&paths.data_big).map_err(|e| format!("{}: {}", paths.data_big, e))?;
+    let put_big = |name: &str, bytes: &[u8]| -> Result<(), String> {
+        let dst = format!("{}/{}", paths.data_big, name);
+        if let Ok(existing) = fs::read(&dst) {
+            if existing == bytes {
+                return Ok(());
+            }
+        }
+        let tmp = format!("{}/.{}.{}.tmp", paths.data_big, name, std::process::id());
+        fs::write(&tmp, bytes).map_err(|e| format!("{}: {}", tmp, e))?;
+        fs::rename(&tmp, &dst).map_err(|e| format!("{}: {}", dst, e))
+    };
+    put_big("dictionary.json", serde_json::to_string(&big).unwrap().as_bytes())?;
+    for name in ["suffix.json", "autocorrect.json"] {
+        let p = format!("{}/{}", paths.data_full, name);
+        let b = fs::read(&p).map_err(|e| format!("{}: {}", p, e))?;
+        put_big(name, &b)?;
+    }
     Ok(kept)
 }
 
